@@ -8,6 +8,9 @@ import DFV.Lemmas.C15Fl64
 import DFV.Lemmas.C15Sqrt64
 import DFV.Lemmas.C15RoundExec
 import DFV.Lemmas.Rounding
+import DFV.Lemmas.C15RoundCplx
+import DFV.Lemmas.C15Acc
+import DFV.Lemmas.C15RoundTree
 /-!
 # C15 — setting a norm rescales non-zero vectors only; orientation is the unit field
 
@@ -31,7 +34,14 @@ after every operation; the bounds that justify the 16u / 4u / 8u comparators and
 oracle's tolerances) over any ordered field, over `ℝ` with `Real.sqrt`, over `Rat` with
 the shared `Rounding` package · binary64 (`fl64` obeys the standard model) · the kernel with a
 rounded root (`SqrtOk`) and its instance `fl64`/`sqrt64`: hypothesis-free theorems about the
-executable kernel that the correspondence run compares bit for bit with NumPy.
+executable kernel that the correspondence run compares bit for bit with NumPy · second round:
+the same bounds for ANY number of components (`…_any`: one hypothesis `(n+1)²·u ≤ 2^-10`,
+constants affine in `n`), the complex kernel as NumPy computes it (`cfl…`: `|z|²` with / without
+a fused multiply-add, division through the rounded reciprocal) with end-to-end theorems for
+`fl64`/`sqrt64` · laws (setting the norm twice = setting the last, idempotent orientation,
+inclusive threshold) · acceptance as an equivalence (setter, histories, constructor, full
+constructor with labels and mapping) · `Field.orientation` as the constructor call it is ·
+norm given as a dictionary over subregions (through C02's model of `_as_array`).
 
 Cells, components, targets, thresholds, meshes, masks, specifications and histories are
 universally quantified.
@@ -520,17 +530,29 @@ theorem norm_setNorm (f g : Fld) (s : NSpec) (t : NDA Rat)
 
 /-! ### orientation -/
 
-/-- orientation keeps mesh, component count, labels, mapping and validity; it carries no unit -/
+/-- orientation keeps mesh, component count, mapping and validity; it carries no unit; the labels
+are kept if there are any (or the field is a scalar field) — a vector field without labels comes
+back with the constructor's default labels, because the getter passes `vdims=None` on -/
 theorem orientation_frame (atol : Rat) (f : Fld) :
     (orientation sqrt atol f).mesh = f.mesh ∧ (orientation sqrt atol f).nvdim = f.nvdim ∧
-    (orientation sqrt atol f).vdims = f.vdims ∧ (orientation sqrt atol f).vmap = f.vmap ∧
+    (orientation sqrt atol f).vdims = orientVdims f ∧
+    (f.vdims ≠ none ∨ f.nvdim = 1 → (orientation sqrt atol f).vdims = f.vdims) ∧
+    (orientation sqrt atol f).vmap = f.vmap ∧
     (orientation sqrt atol f).unit = none ∧
     (∀ i, (orientation sqrt atol f).valid.get i = f.valid.get i) ∧
     ∀ i, ((orientation sqrt atol f).data.get i).length = (f.data.get i).length := by
-  refine ⟨rfl, rfl, rfl, rfl, rfl, fun _ => rfl, fun i => ?_⟩
-  show (orientCell sqrt atol (f.data.get i)).length = _
-  unfold orientCell zeros
-  split <;> simp
+  refine ⟨rfl, rfl, rfl, fun h => ?_, rfl, rfl, fun _ => rfl, fun i => ?_⟩
+  · show orientVdims f = f.vdims
+    unfold orientVdims
+    cases hv : f.vdims with
+    | some l => rfl
+    | none =>
+      rcases h with h | h
+      · exact absurd hv h
+      · simp [Fld.defaultVdims, h]
+  · show (orientCell sqrt atol (f.data.get i)).length = _
+    unfold orientCell zeros
+    split <;> simp
 
 /-- **unit length wherever the field is non-zero** (norm above the absolute threshold) -/
 theorem orientation_unit (atol : Rat) (h0 : 0 ≤ atol) (f : Fld) (i : List Nat)
@@ -1555,5 +1577,1109 @@ theorem exec64_orientCell (atol : Rat) (v : List Rat) (hlen : v.length ≤ 4) (h
 end Exec64
 
 example : atolDefault < flNormCell fl64 sqrt64 ([1, 1 / 3] : List Rat) := by decide +kernel
+
+
+/-! ## Rounded arithmetic for ANY number of components -/
+section RoundedAny
+variable {K : Type} [Field K] [LinearOrder K] [IsStrictOrderedRing K]
+
+/-- **computed norm, any number `n` of components** (exact root at the two radicands): under the
+single hypothesis `(n+1)²·u ≤ 2^-10` it is within `(n/2 + 2)·u` of the length and its square
+within `(n+4)·u` of `Σ_c v_c²` (for `n = 4`: `4u` and `8u`, the constants of the table theorems) -/
+theorem flNorm_err_any (fl sqrt : K → K) (u : K) (h : FlOk fl u) (v : List K)
+    (hn : ((v.length : K) + 1) * ((v.length : K) + 1) * u ≤ 1 / 1024)
+    (hs : SqrtAt sqrt (sqLen v)) (hs' : SqrtAt sqrt (flSqLen fl v)) :
+    |flNormCell fl sqrt v - normCell sqrt v| ≤ ((v.length : K) / 2 + 2) * u * normCell sqrt v ∧
+    |flNormCell fl sqrt v * flNormCell fl sqrt v - sqLen v| ≤ ((v.length : K) + 4) * u * sqLen v := by
+  have s := small_len h.1 v.length hn
+  have h1 := flNormCell_err_gen h v s hs hs'
+  have hb0 : 0 ≤ normCell sqrt v := hs.1
+  have hu0 := h.1
+  set m := ((v.length : K) + 1) * u with hm
+  have hη0 : 0 ≤ 1 / 2 * m + 513 / 512 * u := by have := s.m0; linarith
+  constructor
+  · refine le_trans h1 (mul_le_mul_of_nonneg_right ?_ hb0)
+    rw [hm]; nlinarith
+  · have hbb : normCell sqrt v * normCell sqrt v = sqLen v := hs.2
+    have := sq_err (w := flNormCell fl sqrt v) (z := normCell sqrt v) (ρ := 1 / 2 * m + 513 / 512 * u) hη0
+      (by rw [abs_of_nonneg hb0]; exact h1)
+    rw [hbb] at this
+    have h2 := s.two_sq hη0 (a := 1 / 2) (b := 513 / 512) (by norm_num) (by norm_num) le_rfl
+    have hS := sqLen_nonneg v
+    refine le_trans this (mul_le_mul_of_nonneg_right ?_ hS)
+    refine le_trans h2 ?_
+    rw [hm]; nlinarith
+
+/-- **computed setter, any number of components** (exact root): the floating-point zero guard
+is the exact per-cell guard; on a non-zero cell every component is within `(n/2 + 4)·u` of
+`(t/‖v‖)·v_c`, the squared length within `(n+8)·u` of `t²`, every cross term with the old
+vector relatively below `2ρ/(1−ρ)` with `ρ = (n/2+4)u`, and for `t > 0` the dot product with
+the old vector is positive -/
+theorem flSetCell_any (fl sqrt : K → K) (u : K) (h : FlOk fl u) (v : List K) (t : K)
+    (hn : ((v.length : K) + 1) * ((v.length : K) + 1) * u ≤ 1 / 1024)
+    (hs : SqrtAt sqrt (sqLen v)) (hs' : SqrtAt sqrt (flSqLen fl v)) :
+    ((∀ x ∈ v, x = 0) → flSetCell fl sqrt v t = zeros v) ∧
+    (sqLen v ≠ 0 →
+      (∃ f : K → K, flSetCell fl sqrt v t = v.map f ∧
+        ∀ x, |f x - t / normCell sqrt v * x| ≤ ((v.length : K) / 2 + 4) * u * |t / normCell sqrt v * x|) ∧
+      |sqLen (flSetCell fl sqrt v t) - t * t| ≤ ((v.length : K) + 8) * u * (t * t) ∧
+      (∀ a b : Nat, a < v.length →
+        |(flSetCell fl sqrt v t).getD a 0 * v.getD b 0 - (flSetCell fl sqrt v t).getD b 0 * v.getD a 0|
+          * (1 - ((v.length : K) / 2 + 4) * u) ≤
+          2 * (((v.length : K) / 2 + 4) * u) * |(flSetCell fl sqrt v t).getD a 0 * v.getD b 0|) ∧
+      (0 < t → 0 < dot (flSetCell fl sqrt v t) v)) := by
+  have s := small_len h.1 v.length hn
+  have hz := flNormCell_eq_zero_iff_gen (sqrt := sqrt) h v s hs'
+  have hu0 := h.1
+  have hm0 := s.m0
+  have hm64 := s.m64
+  have hu64 := s.u64
+  constructor
+  · intro hv
+    exact flSetCell_of_eq h t (hz.mpr ((sqLen_eq_zero_iff v).mpr hv))
+  · intro hnz
+    have hne : flNormCell fl sqrt v ≠ 0 := fun e => hnz (hz.mp e)
+    have hf := flSetCell_of_ne (fl := fl) (sqrt := sqrt) (v := v) t hne
+    set m := ((v.length : K) + 1) * u with hm
+    set ρ := 1 / 2 * m + 193 / 64 * u with hρ
+    have hρ0 : 0 ≤ ρ := by rw [hρ]; linarith
+    have hρc : ρ ≤ ((v.length : K) / 2 + 4) * u := by rw [hρ, hm]; nlinarith
+    have hρ1 : ρ ≤ 1 / 2 := by rw [hρ]; linarith
+    have herr : ∀ x, |fl (fl (x / flNormCell fl sqrt v) * t) - t / normCell sqrt v * x| ≤
+        ρ * |t / normCell sqrt v * x| := fun x =>
+      (quot_mul_gen h s (hs.pos hnz) (flNormCell_err_gen h v s hs hs') x t).2
+    have hb : normCell sqrt v ≠ 0 := fun e => hnz (hs.eq_zero_iff.mp e)
+    have hlamS : t / normCell sqrt v * (t / normCell sqrt v) * sqLen v = t * t := by
+      have hb2 : sqLen v = normCell sqrt v * normCell sqrt v := hs.2.symm
+      rw [hb2]; field_simp
+    refine ⟨⟨_, hf, fun x => le_trans (herr x) (mul_le_mul_of_nonneg_right hρc (abs_nonneg _))⟩, ?_, ?_, ?_⟩
+    · have key := sqLen_map_err _ (t / normCell sqrt v) ρ hρ0 v fun x _ => herr x
+      rw [hlamS] at key
+      rw [hf]
+      have h2 := s.two_sq hρ0 (a := 1 / 2) (b := 193 / 64) (by norm_num) (by norm_num) (le_of_eq hρ)
+      refine le_trans key (mul_le_mul_of_nonneg_right (le_trans h2 ?_) (mul_self_nonneg t))
+      rw [hm]; nlinarith
+    · intro a b ha
+      rw [hf]
+      have c1 := cross_err _ (t / normCell sqrt v) ρ v (fun x _ => herr x) a b
+      have c2 := cross_low _ (t / normCell sqrt v) ρ v (fun x _ => herr x) a b ha
+      set X := |(v.map fun x => fl (fl (x / flNormCell fl sqrt v) * t)).getD a 0 * v.getD b 0 -
+        (v.map fun x => fl (fl (x / flNormCell fl sqrt v) * t)).getD b 0 * v.getD a 0| with hX
+      set Y := |t / normCell sqrt v * v.getD a 0 * v.getD b 0| with hY
+      set W := |(v.map fun x => fl (fl (x / flNormCell fl sqrt v) * t)).getD a 0 * v.getD b 0| with hW
+      have hX0 : 0 ≤ X := abs_nonneg _
+      have hY0 : 0 ≤ Y := abs_nonneg _
+      have hW0 : 0 ≤ W := abs_nonneg _
+      set ρ' := ((v.length : K) / 2 + 4) * u with hρ'
+      -- X ≤ 2ρY, (1-ρ)Y ≤ W, ρ ≤ ρ'
+      have h1 : X * (1 - ρ) ≤ 2 * ρ * W := by
+        have := mul_le_mul_of_nonneg_left c2 (by linarith : (0 : K) ≤ 2 * ρ)
+        nlinarith
+      have h2 : X * (1 - ρ') ≤ X * (1 - ρ) := mul_le_mul_of_nonneg_left (by linarith) hX0
+      have h3 : 2 * ρ * W ≤ 2 * ρ' * W := mul_le_mul_of_nonneg_right (by linarith) hW0
+      linarith
+    · intro ht
+      rw [hf]
+      have hlam : 0 < t / normCell sqrt v := div_pos ht (hs.pos hnz)
+      have := dot_map_low _ (t / normCell sqrt v) ρ hlam.le v fun x _ => herr x
+      have hS : 0 < sqLen v := lt_of_le_of_ne (sqLen_nonneg v) (Ne.symm hnz)
+      have : 0 < (1 - ρ) * (t / normCell sqrt v * sqLen v) := mul_pos (by linarith) (mul_pos hlam hS)
+      linarith
+
+
+/-- **computed orientation, any number of components** (exact root), above the threshold:
+every component within `(n/2 + 3)·u` of `v_c/‖v‖`, squared length within `(n+6)·u` of 1,
+`orientation × computed norm` within one rounding of the field; and the threshold decision can
+differ from the exact one only for lengths within the relative band `(n/2 + 2)·u` of `atol` -/
+theorem flOrientCell_any (fl sqrt : K → K) (u atol : K) (h : FlOk fl u) (v : List K)
+    (hn : ((v.length : K) + 1) * ((v.length : K) + 1) * u ≤ 1 / 1024)
+    (hs : SqrtAt sqrt (sqLen v)) (hs' : SqrtAt sqrt (flSqLen fl v)) (h0 : 0 ≤ atol) :
+    (atol < flNormCell fl sqrt v →
+      ∃ f : K → K, flOrientCell fl sqrt atol v = v.map f ∧
+        (∀ x, |f x - x / normCell sqrt v| ≤ ((v.length : K) / 2 + 3) * u * |x / normCell sqrt v|) ∧
+        |sqLen (flOrientCell fl sqrt atol v) - 1| ≤ ((v.length : K) + 6) * u ∧
+        ∀ x, |f x * flNormCell fl sqrt v - x| ≤ u * |x|) ∧
+    (normCell sqrt v * (1 + ((v.length : K) / 2 + 2) * u) ≤ atol → flOrientCell fl sqrt atol v = zeros v) ∧
+    (atol < normCell sqrt v * (1 - ((v.length : K) / 2 + 2) * u) →
+      flOrientCell fl sqrt atol v = v.map fun x => fl (x / flNormCell fl sqrt v)) := by
+  have s := small_len h.1 v.length hn
+  have hz := flNormCell_eq_zero_iff_gen (sqrt := sqrt) h v s hs'
+  have hu0 := h.1
+  have hm0 := s.m0
+  have hm64 := s.m64
+  have hu64 := s.u64
+  have hnerr := (flNorm_err_any fl sqrt u h v hn hs hs').1
+  have hn0 : 0 ≤ flNormCell fl sqrt v := h.nonneg (by linarith) hs'.1
+  refine ⟨fun hat => ?_, fun hle => ?_, fun hlt => ?_⟩
+  · have hnpos : 0 < flNormCell fl sqrt v := lt_of_le_of_lt h0 hat
+    have hnz : sqLen v ≠ 0 := fun e => hnpos.ne' (hz.mpr e)
+    have hcz : closeZero atol (flNormCell fl sqrt v) = false := by
+      rw [closeZero_eq, decide_eq_false_iff_not, not_le, abs_of_pos hnpos]; exact hat
+    have hf : flOrientCell fl sqrt atol v = v.map fun x => fl (x / flNormCell fl sqrt v) := by
+      unfold flOrientCell; rw [hcz]; rfl
+    set m := ((v.length : K) + 1) * u with hm
+    set ρ := 1 / 2 * m + 257 / 128 * u with hρ
+    have hρ0 : 0 ≤ ρ := by rw [hρ]; linarith
+    have hρc : ρ ≤ ((v.length : K) / 2 + 3) * u := by rw [hρ, hm]; nlinarith
+    have herr : ∀ x, |fl (x / flNormCell fl sqrt v) - x / normCell sqrt v| ≤ ρ * |x / normCell sqrt v| :=
+      fun x => (quot_mul_gen h s (hs.pos hnz) (flNormCell_err_gen h v s hs hs') x 1).1
+    refine ⟨_, hf, fun x => le_trans (herr x) (mul_le_mul_of_nonneg_right hρc (abs_nonneg _)), ?_,
+      fun x => quot_times_err h hnpos.ne' x⟩
+    have hb : normCell sqrt v ≠ 0 := fun e => hnz (hs.eq_zero_iff.mp e)
+    have key := sqLen_map_err (fun x => fl (x / flNormCell fl sqrt v)) (1 / normCell sqrt v) ρ hρ0 v
+      fun x _ => by
+        have e1 : 1 / normCell sqrt v * x = x / normCell sqrt v := by ring
+        rw [e1]; exact herr x
+    have e : 1 / normCell sqrt v * (1 / normCell sqrt v) * sqLen v = 1 := by
+      have hb2 : sqLen v = normCell sqrt v * normCell sqrt v := hs.2.symm
+      rw [hb2]; field_simp
+    rw [e, mul_one] at key
+    rw [hf]
+    have h2 := s.two_sq hρ0 (a := 1 / 2) (b := 257 / 128) (by norm_num) (by norm_num) (le_of_eq hρ)
+    refine le_trans key (le_trans h2 ?_)
+    rw [hm]; nlinarith
+  · have herr := abs_le.mp hnerr
+    unfold flOrientCell
+    have : closeZero atol (flNormCell fl sqrt v) = true := by
+      rw [closeZero_eq, decide_eq_true_iff, abs_of_nonneg hn0]; linarith [herr.2]
+    rw [this]; rfl
+  · have herr := abs_le.mp hnerr
+    unfold flOrientCell
+    have : closeZero atol (flNormCell fl sqrt v) = false := by
+      rw [closeZero_eq, decide_eq_false_iff_not, not_le, abs_of_nonneg hn0]; linarith [herr.1]
+    rw [this]; rfl
+
+/-- **computed norm with a rounded root, any number of components** (`SqrtOk`: no exact root
+assumed): non-negative, its square within `(n+6)·u` of `Σ_c v_c²`, zero exactly on zero cells -/
+theorem flNorm_exec_any (fl sq : K → K) (u : K) (h : FlOk fl u) (hq : SqrtOk sq u) (v : List K)
+    (hn : ((v.length : K) + 1) * ((v.length : K) + 1) * u ≤ 1 / 1024) :
+    0 ≤ flNormCell fl sq v ∧
+    |flNormCell fl sq v * flNormCell fl sq v - sqLen v| ≤ ((v.length : K) + 6) * u * sqLen v ∧
+    (flNormCell fl sq v = 0 ↔ ∀ x ∈ v, x = 0) := by
+  have s := small_len h.1 v.length hn
+  obtain ⟨h1, h2, h3⟩ := flNormCell_exec_gen h hq v s
+  refine ⟨h1, le_trans h2 (mul_le_mul_of_nonneg_right ?_ (sqLen_nonneg v)), h3.trans (sqLen_eq_zero_iff v)⟩
+  have := h.1; nlinarith
+
+/-- **computed setter with a rounded root, any number of components**: a zero cell stays exactly
+zero; on every other cell the squared length of the result is within `(n+10)·u` of `t²`, every
+cross term with the old vector is relatively below `17/4·u/(1 − 17/8·u)`, and for a positive
+target the dot product with the old vector is positive -/
+theorem flSetCell_exec_any (fl sq : K → K) (u : K) (h : FlOk fl u) (hq : SqrtOk sq u) (v : List K) (t : K)
+    (hn : ((v.length : K) + 1) * ((v.length : K) + 1) * u ≤ 1 / 1024) :
+    ((∀ x ∈ v, x = 0) → flSetCell fl sq v t = zeros v) ∧
+    (sqLen v ≠ 0 →
+      |sqLen (flSetCell fl sq v t) - t * t| ≤ ((v.length : K) + 10) * u * (t * t) ∧
+      (∀ a b : Nat, a < v.length →
+        |(flSetCell fl sq v t).getD a 0 * v.getD b 0 - (flSetCell fl sq v t).getD b 0 * v.getD a 0|
+          * (1 - 17 / 8 * u) ≤ 17 / 4 * u * |(flSetCell fl sq v t).getD a 0 * v.getD b 0|) ∧
+      (0 < t → 0 < dot (flSetCell fl sq v t) v)) := by
+  have s := small_len h.1 v.length hn
+  obtain ⟨hn0, hnsq, hnz⟩ := flNormCell_exec_gen h hq v s
+  have hu0 := h.1
+  have hu64 := s.u64
+  have hm0 := s.m0
+  constructor
+  · intro hv
+    exact flSetCell_of_eq h t (hnz.mpr ((sqLen_eq_zero_iff v).mpr hv))
+  · intro hS
+    have hne : flNormCell fl sq v ≠ 0 := fun e => hS (hnz.mp e)
+    have hnpos : 0 < flNormCell fl sq v := lt_of_le_of_ne hn0 (Ne.symm hne)
+    have hSpos : 0 < sqLen v := lt_of_le_of_ne (sqLen_nonneg v) (Ne.symm hS)
+    rw [flSetCell_of_ne t hne]
+    set n := flNormCell fl sq v with hndef
+    have herr : ∀ x, |fl (fl (x / n) * t) - t / n * x| ≤ 17 / 8 * u * |t / n * x| := fun x =>
+      (quot_mul_exec h hu64 n x t).2
+    refine ⟨?_, fun a b ha => ?_, fun ht => ?_⟩
+    · have hq1 := ratio_small s hSpos hnpos hnsq
+      have hκ0 : 0 ≤ |sqLen v / (n * n) - 1| := abs_nonneg _
+      have key := sqLen_set_chain (fun x => fl (fl (x / n) * t)) v (ρ := 17 / 8 * u)
+        (κ' := |sqLen v / (n * n) - 1|) (by linarith) hκ0 hSpos hnpos le_rfl herr
+      have hc := set_chain_small s (ρ := 17 / 8 * u) (c := 17 / 8) (κ' := |sqLen v / (n * n) - 1|)
+        (by linarith) (by norm_num) (by norm_num) le_rfl hκ0 hq1
+      refine le_trans key (mul_le_mul_of_nonneg_right (le_trans hc ?_) (mul_self_nonneg t))
+      nlinarith
+    · have c1 := cross_err (fun x => fl (fl (x / n) * t)) (t / n) (17 / 8 * u) v (fun x _ => herr x) a b
+      have c2 := cross_low (fun x => fl (fl (x / n) * t)) (t / n) (17 / 8 * u) v (fun x _ => herr x) a b ha
+      have h1 : (0 : K) ≤ 1 - 17 / 8 * u := by linarith
+      have := mul_le_mul_of_nonneg_right c1 h1
+      nlinarith
+    · have hlam : 0 < t / n := div_pos ht hnpos
+      have := dot_map_low (fun x => fl (fl (x / n) * t)) (t / n) (17 / 8 * u) hlam.le v fun x _ => herr x
+      have : 0 < (1 - 17 / 8 * u) * (t / n * sqLen v) := mul_pos (by linarith) (mul_pos hlam hSpos)
+      linarith
+
+/-- **computed orientation with a rounded root, any number of components**, above the threshold:
+squared length within `(n+8)·u` of 1; times the computed norm it reproduces the field within
+one rounding -/
+theorem flOrientCell_exec_any (fl sq : K → K) (u atol : K) (h : FlOk fl u) (hq : SqrtOk sq u) (v : List K)
+    (hn : ((v.length : K) + 1) * ((v.length : K) + 1) * u ≤ 1 / 1024) (h0 : 0 ≤ atol)
+    (hat : atol < flNormCell fl sq v) :
+    |sqLen (flOrientCell fl sq atol v) - 1| ≤ ((v.length : K) + 8) * u ∧
+    ∀ a : Nat, |(flOrientCell fl sq atol v).getD a 0 * flNormCell fl sq v - v.getD a 0| ≤ u * |v.getD a 0| := by
+  have s := small_len h.1 v.length hn
+  obtain ⟨hn0, hnsq, hnz⟩ := flNormCell_exec_gen h hq v s
+  have hu0 := h.1
+  have hnpos : 0 < flNormCell fl sq v := lt_of_le_of_lt h0 hat
+  have hS : sqLen v ≠ 0 := fun e => hnpos.ne' (hnz.mpr e)
+  have hSpos : 0 < sqLen v := lt_of_le_of_ne (sqLen_nonneg v) (Ne.symm hS)
+  have hcz : closeZero atol (flNormCell fl sq v) = false := by
+    rw [closeZero_eq, decide_eq_false_iff_not, not_le, abs_of_pos hnpos]; exact hat
+  have hf : flOrientCell fl sq atol v = v.map fun x => fl (x / flNormCell fl sq v) := by
+    unfold flOrientCell; rw [hcz]; rfl
+  rw [hf]
+  set n := flNormCell fl sq v with hndef
+  constructor
+  · have hq1 := ratio_small s hSpos hnpos hnsq
+    have hκ0 : 0 ≤ |sqLen v / (n * n) - 1| := abs_nonneg _
+    have key := sqLen_set_chain (fun x => fl (x / n)) v (t := 1) (ρ := u)
+      (κ' := |sqLen v / (n * n) - 1|) hu0 hκ0 hSpos hnpos le_rfl (fun x => by
+        have e1 : 1 / n * x = x / n := by ring
+        rw [e1]; exact h.2 _)
+    have hc := set_chain_small s (ρ := u) (c := 1) (κ' := |sqLen v / (n * n) - 1|)
+      hu0 (by norm_num) (by norm_num) (by linarith) hκ0 hq1
+    rw [mul_one, mul_one] at key
+    refine le_trans key (le_trans hc ?_)
+    nlinarith
+  · intro a
+    rw [getD_map_zero]
+    split
+    · exact quot_times_err h hnpos.ne' _
+    · rename_i hge
+      have : v.getD a 0 = 0 := by simp [List.getD_eq_getElem?_getD, not_lt.mp hge]
+      rw [this]; simp
+
+end RoundedAny
+
+section CplxRounded
+variable {K : Type} [Field K] [LinearOrder K] [IsStrictOrderedRing K]
+
+/-- with `fl := id` the rounded complex kernel (fused or not) is the exact complex kernel of the
+model, so — through `complex_view` — the real kernel on the `(re, im)` view -/
+theorem cflKernel_id (sqrt : K → K) (atol : K) (fused : Bool) (v : List (K × K)) (t : K) :
+    cflNormCell id sqrt fused v = cNormCell sqrt v ∧ cflSetCell id sqrt fused v t = cSetCell sqrt v t ∧
+    cflOrientCell id sqrt fused atol v = cOrientCell sqrt atol v := by
+  have hs : cflSqLen id fused v = cSqLen v := by
+    unfold cflSqLen
+    suffices H : ∀ a : K, v.foldl (fun acc z => id (acc + cflAbs2 id fused z)) a = a + cSqLen v by
+      rw [H, zero_add]
+    induction v with
+    | nil => intro a; simp [cSqLen]
+    | cons z zs ih =>
+      intro a
+      simp only [List.foldl_cons, cSqLen]
+      rw [ih]
+      cases fused <;> simp [cflAbs2] <;> ring
+  have hn : cflNormCell id sqrt fused v = cNormCell sqrt v := by
+    unfold cflNormCell cNormCell; rw [hs]; rfl
+  have hd : ∀ n : K, cflDivCell id v n = v.map fun z => (z.1 / n, z.2 / n) := by
+    intro n
+    unfold cflDivCell
+    apply List.map_congr_left
+    intro z _
+    simp [div_eq_mul_inv]
+  refine ⟨hn, ?_, ?_⟩
+  · unfold cflSetCell cSetCell
+    rw [hn, hd]
+    apply List.map_congr_left
+    intro z _
+    simp [cmul_real]
+  · unfold cflOrientCell cOrientCell
+    rw [hn, hd]
+
+/-- **computed norm of a complex cell** (`Σ|z_c|²` with or without a fused multiply-add, rounded
+root), any number `n` of complex components with `(n+2)²·u ≤ 2^-10`: non-negative, its square
+within `(n+7)·u` of `Σ|z_c|²`, zero exactly on the zero cell -/
+theorem cflNorm_exec_any (fl sq : K → K) (u : K) (h : FlOk fl u) (hq : SqrtOk sq u) (fused : Bool)
+    (v : List (K × K)) (hn : ((v.length : K) + 2) * ((v.length : K) + 2) * u ≤ 1 / 1024) :
+    0 ≤ cflNormCell fl sq fused v ∧
+    |cflNormCell fl sq fused v * cflNormCell fl sq fused v - cSqLen v| ≤ ((v.length : K) + 7) * u * cSqLen v ∧
+    (cflNormCell fl sq fused v = 0 ↔ cSqLen v = 0) := by
+  have s := small_len2 h.1 v.length hn
+  obtain ⟨h1, h2, h3⟩ := cflNormCell_exec_gen h hq fused v s
+  refine ⟨h1, le_trans h2 (mul_le_mul_of_nonneg_right ?_ (cSqLen_nonneg v)), h3⟩
+  have := h.1; nlinarith
+
+/-- **computed norm setter on a complex cell** (division through the rounded reciprocal — two
+roundings — then the product with the real target): a zero cell stays exactly zero; on every
+other cell real and imaginary part of every component are multiplied by the same real factor
+up to `49/16·u` (three roundings), `Σ|z_c|²` of the result is within `(n+13)·u` of `t²`, every
+cross term of the `(re, im)` view with the old view is relatively below
+`49/8·u/(1 − 49/16·u)` (direction **and phases** kept), and for `t > 0` the real dot product of
+the views is positive -/
+theorem cflSetCell_exec_any (fl sq : K → K) (u : K) (h : FlOk fl u) (hq : SqrtOk sq u) (fused : Bool)
+    (v : List (K × K)) (t : K) (hn : ((v.length : K) + 2) * ((v.length : K) + 2) * u ≤ 1 / 1024) :
+    (cSqLen v = 0 → flattenC (cflSetCell fl sq fused v t) = zeros (flattenC v)) ∧
+    (cSqLen v ≠ 0 →
+      (∃ f : K → K, flattenC (cflSetCell fl sq fused v t) = (flattenC v).map f ∧
+        ∀ x, |f x - t / cflNormCell fl sq fused v * x| ≤
+          49 / 16 * u * |t / cflNormCell fl sq fused v * x|) ∧
+      |cSqLen (cflSetCell fl sq fused v t) - t * t| ≤ ((v.length : K) + 13) * u * (t * t) ∧
+      (∀ a b : Nat, a < (flattenC v).length →
+        |(flattenC (cflSetCell fl sq fused v t)).getD a 0 * (flattenC v).getD b 0 -
+            (flattenC (cflSetCell fl sq fused v t)).getD b 0 * (flattenC v).getD a 0|
+          * (1 - 49 / 16 * u) ≤
+          49 / 8 * u * |(flattenC (cflSetCell fl sq fused v t)).getD a 0 * (flattenC v).getD b 0|) ∧
+      (0 < t → 0 < dot (flattenC (cflSetCell fl sq fused v t)) (flattenC v))) := by
+  have s := small_len2 h.1 v.length hn
+  obtain ⟨hn0, hnsq, hnz⟩ := cflNormCell_exec_gen h hq fused v s
+  have hu0 := h.1
+  have hu64 := s.u64
+  have hm0 := s.m0
+  constructor
+  · intro hv
+    exact flattenC_cflSet_of_eq h t (hnz.mpr hv)
+  · intro hS
+    have hne : cflNormCell fl sq fused v ≠ 0 := fun e => hS (hnz.mp e)
+    have hnpos : 0 < cflNormCell fl sq fused v := lt_of_le_of_ne hn0 (Ne.symm hne)
+    have hS' : sqLen (flattenC v) = cSqLen v := sqLen_flattenC v
+    have hSpos : 0 < sqLen (flattenC v) := by
+      rw [hS']; exact lt_of_le_of_ne (cSqLen_nonneg v) (Ne.symm hS)
+    have hf := flattenC_cflSet_of_ne (fl := fl) (sq := sq) (fused := fused) (v := v) t hne
+    rw [← sqLen_flattenC (cflSetCell fl sq fused v t), hf]
+    set n := cflNormCell fl sq fused v with hndef
+    have herr : ∀ x, |fl (fl (x * fl (1 / n)) * t) - t / n * x| ≤ 49 / 16 * u * |t / n * x| := fun x =>
+      (recip_mul_err h hu64 n x t).2
+    refine ⟨⟨_, rfl, herr⟩, ?_, fun a b ha => ?_, fun ht => ?_⟩
+    · rw [← hS'] at hnsq
+      have hq1 := ratio_small s hSpos hnpos hnsq
+      have hκ0 : 0 ≤ |sqLen (flattenC v) / (n * n) - 1| := abs_nonneg _
+      have key := sqLen_set_chain (fun x => fl (fl (x * fl (1 / n)) * t)) (flattenC v) (ρ := 49 / 16 * u)
+        (κ' := |sqLen (flattenC v) / (n * n) - 1|) (by linarith) hκ0 hSpos hnpos le_rfl herr
+      have hc := set_chain_small s (ρ := 49 / 16 * u) (c := 49 / 16)
+        (κ' := |sqLen (flattenC v) / (n * n) - 1|) (by linarith) (by norm_num) (by norm_num) le_rfl hκ0 hq1
+      refine le_trans key (mul_le_mul_of_nonneg_right (le_trans hc ?_) (mul_self_nonneg t))
+      nlinarith
+    · have c1 := cross_err (fun x => fl (fl (x * fl (1 / n)) * t)) (t / n) (49 / 16 * u) (flattenC v)
+        (fun x _ => herr x) a b
+      have c2 := cross_low (fun x => fl (fl (x * fl (1 / n)) * t)) (t / n) (49 / 16 * u) (flattenC v)
+        (fun x _ => herr x) a b ha
+      have h1 : (0 : K) ≤ 1 - 49 / 16 * u := by linarith
+      have := mul_le_mul_of_nonneg_right c1 h1
+      nlinarith
+    · have hlam : 0 < t / n := div_pos ht hnpos
+      have := dot_map_low (fun x => fl (fl (x * fl (1 / n)) * t)) (t / n) (49 / 16 * u) hlam.le (flattenC v)
+        fun x _ => herr x
+      have : 0 < (1 - 49 / 16 * u) * (t / n * sqLen (flattenC v)) :=
+        mul_pos (by linarith) (mul_pos hlam hSpos)
+      linarith
+
+/-- **computed orientation of a complex cell**, above the threshold: `Σ|o_c|²` within `(n+11)·u`
+of 1; real and imaginary parts times the computed norm reproduce the field within two
+roundings (`33/16·u`; the reciprocal costs one more rounding than the real division) -/
+theorem cflOrientCell_exec_any (fl sq : K → K) (u atol : K) (h : FlOk fl u) (hq : SqrtOk sq u)
+    (fused : Bool) (v : List (K × K)) (hn : ((v.length : K) + 2) * ((v.length : K) + 2) * u ≤ 1 / 1024)
+    (h0 : 0 ≤ atol) (hat : atol < cflNormCell fl sq fused v) :
+    |cSqLen (cflOrientCell fl sq fused atol v) - 1| ≤ ((v.length : K) + 11) * u ∧
+    ∀ a : Nat, |(flattenC (cflOrientCell fl sq fused atol v)).getD a 0 * cflNormCell fl sq fused v -
+        (flattenC v).getD a 0| ≤ 33 / 16 * u * |(flattenC v).getD a 0| := by
+  have s := small_len2 h.1 v.length hn
+  obtain ⟨hn0, hnsq, hnz⟩ := cflNormCell_exec_gen h hq fused v s
+  have hu0 := h.1
+  have hu64 := s.u64
+  have hnpos : 0 < cflNormCell fl sq fused v := lt_of_le_of_lt h0 hat
+  have hS : cSqLen v ≠ 0 := fun e => hnpos.ne' (hnz.mpr e)
+  have hS' : sqLen (flattenC v) = cSqLen v := sqLen_flattenC v
+  have hSpos : 0 < sqLen (flattenC v) := by
+    rw [hS']; exact lt_of_le_of_ne (cSqLen_nonneg v) (Ne.symm hS)
+  have hcz : closeZero atol (cflNormCell fl sq fused v) = false := by
+    rw [closeZero_eq, decide_eq_false_iff_not, not_le, abs_of_pos hnpos]; exact hat
+  have hf : flattenC (cflOrientCell fl sq fused atol v) =
+      (flattenC v).map fun x => fl (x * fl (1 / cflNormCell fl sq fused v)) := by
+    unfold cflOrientCell; rw [hcz]; exact flattenC_cflDiv fl v _
+  rw [← sqLen_flattenC (cflOrientCell fl sq fused atol v), hf]
+  set n := cflNormCell fl sq fused v with hndef
+  constructor
+  · rw [← hS'] at hnsq
+    have hq1 := ratio_small s hSpos hnpos hnsq
+    have hκ0 : 0 ≤ |sqLen (flattenC v) / (n * n) - 1| := abs_nonneg _
+    have key := sqLen_set_chain (fun x => fl (x * fl (1 / n))) (flattenC v) (t := 1) (ρ := 33 / 16 * u)
+      (κ' := |sqLen (flattenC v) / (n * n) - 1|) (by linarith) hκ0 hSpos hnpos le_rfl (fun x => by
+        have e1 : 1 / n * x = x / n := by ring
+        rw [e1]; exact (recip_mul_err h hu64 n x 1).1)
+    have hc := set_chain_small s (ρ := 33 / 16 * u) (c := 33 / 16)
+      (κ' := |sqLen (flattenC v) / (n * n) - 1|) (by linarith) (by norm_num) (by norm_num) le_rfl hκ0 hq1
+    rw [mul_one, mul_one] at key
+    refine le_trans key (le_trans hc ?_)
+    have := s.m0
+    nlinarith
+  · intro a
+    rw [getD_map_zero]
+    split
+    · exact recip_times_err h hu64 hnpos.ne' _
+    · rename_i hge
+      have : (flattenC v).getD a 0 = 0 := by simp [List.getD_eq_getElem?_getD, not_lt.mp hge]
+      rw [this]; simp
+
+end CplxRounded
+
+/-! ### … instantiated with the executable `fl64` / `sqrt64` -/
+section Exec64Any
+
+/-- **end to end for the bit-exact real kernel, any number of components** (fewer than two
+million): for every rational cell and every target the numbers the executable kernel
+`fl64`/`sqrt64` computes satisfy, with `u = 2^-53` and `n` the number of components: zero cells
+stay zero; otherwise squared length within `(n+10)u` of `t²`, cross terms relatively below
+`17/4·u/(1−17/8·u)`, positive dot product for `t > 0`; the norm's square within `(n+6)u` of
+`Σ v_c²`; above the threshold the orientation's squared length within `(n+8)u` of 1 and
+orientation × norm within one rounding of the field -/
+theorem exec64_any (v : List Rat) (t atol : Rat) (hlen : v.length < 2000000) :
+    ((∀ x ∈ v, x = 0) → flSetCell fl64 sqrt64 v t = zeros v) ∧
+    (sqLen v ≠ 0 →
+      |sqLen (flSetCell fl64 sqrt64 v t) - t * t| ≤ ((v.length : Rat) + 10) * (1 / 9007199254740992) * (t * t) ∧
+      (∀ a b : Nat, a < v.length →
+        |(flSetCell fl64 sqrt64 v t).getD a 0 * v.getD b 0 - (flSetCell fl64 sqrt64 v t).getD b 0 * v.getD a 0|
+          * (1 - 17 / 8 * (1 / 9007199254740992)) ≤
+          17 / 4 * (1 / 9007199254740992) * |(flSetCell fl64 sqrt64 v t).getD a 0 * v.getD b 0|) ∧
+      (0 < t → 0 < dot (flSetCell fl64 sqrt64 v t) v)) ∧
+    |flNormCell fl64 sqrt64 v * flNormCell fl64 sqrt64 v - sqLen v| ≤
+      ((v.length : Rat) + 6) * (1 / 9007199254740992) * sqLen v ∧
+    (0 ≤ atol → atol < flNormCell fl64 sqrt64 v →
+      |sqLen (flOrientCell fl64 sqrt64 atol v) - 1| ≤ ((v.length : Rat) + 8) * (1 / 9007199254740992) ∧
+      ∀ a : Nat, |(flOrientCell fl64 sqrt64 atol v).getD a 0 * flNormCell fl64 sqrt64 v - v.getD a 0| ≤
+        1 / 9007199254740992 * |v.getD a 0|) := by
+  have hn := count_ok v.length 1 (by omega) hlen
+  simp only [Nat.cast_one] at hn
+  obtain ⟨h1, h2⟩ := flSetCell_exec_any fl64 sqrt64 _ fl64_flOk sqrt64_sqrtOk v t hn
+  exact ⟨h1, h2, (flNorm_exec_any fl64 sqrt64 _ fl64_flOk sqrt64_sqrtOk v hn).2.1,
+    fun h0 hat => flOrientCell_exec_any fl64 sqrt64 _ atol fl64_flOk sqrt64_sqrtOk v hn h0 hat⟩
+
+/-- **end to end for the bit-exact complex kernel** (what the correspondence run compares with
+NumPy's arithmetic on `dtype=complex` fields, fused multiply-add or not): zero cells stay
+zero; otherwise `Σ|z_c|²` of the result within `(n+13)u` of `t²`, cross terms of the `(re, im)`
+views relatively below `49/8·u/(1−49/16·u)`, positive real dot product for `t > 0`; the norm's
+square within `(n+7)u` of `Σ|z_c|²`; above the threshold the orientation has `Σ|o_c|²` within
+`(n+11)u` of 1 -/
+theorem exec64_complex (fused : Bool) (v : List (Rat × Rat)) (t atol : Rat) (hlen : v.length < 2000000) :
+    (cSqLen v = 0 → flattenC (cflSetCell fl64 sqrt64 fused v t) = zeros (flattenC v)) ∧
+    (cSqLen v ≠ 0 →
+      |cSqLen (cflSetCell fl64 sqrt64 fused v t) - t * t| ≤
+        ((v.length : Rat) + 13) * (1 / 9007199254740992) * (t * t) ∧
+      (∀ a b : Nat, a < (flattenC v).length →
+        |(flattenC (cflSetCell fl64 sqrt64 fused v t)).getD a 0 * (flattenC v).getD b 0 -
+            (flattenC (cflSetCell fl64 sqrt64 fused v t)).getD b 0 * (flattenC v).getD a 0|
+          * (1 - 49 / 16 * (1 / 9007199254740992)) ≤
+          49 / 8 * (1 / 9007199254740992) *
+            |(flattenC (cflSetCell fl64 sqrt64 fused v t)).getD a 0 * (flattenC v).getD b 0|) ∧
+      (0 < t → 0 < dot (flattenC (cflSetCell fl64 sqrt64 fused v t)) (flattenC v))) ∧
+    |cflNormCell fl64 sqrt64 fused v * cflNormCell fl64 sqrt64 fused v - cSqLen v| ≤
+      ((v.length : Rat) + 7) * (1 / 9007199254740992) * cSqLen v ∧
+    (0 ≤ atol → atol < cflNormCell fl64 sqrt64 fused v →
+      |cSqLen (cflOrientCell fl64 sqrt64 fused atol v) - 1| ≤ ((v.length : Rat) + 11) * (1 / 9007199254740992)) := by
+  have hn := count_ok v.length 2 (by omega) hlen
+  simp only [Nat.cast_ofNat] at hn
+  obtain ⟨h1, h2⟩ := cflSetCell_exec_any fl64 sqrt64 _ fl64_flOk sqrt64_sqrtOk fused v t hn
+  refine ⟨h1, fun hS => ?_, (cflNorm_exec_any fl64 sqrt64 _ fl64_flOk sqrt64_sqrtOk fused v hn).2.1,
+    fun h0 hat => (cflOrientCell_exec_any fl64 sqrt64 _ atol fl64_flOk sqrt64_sqrtOk fused v hn h0 hat).1⟩
+  obtain ⟨_, a2, a3, a4⟩ := h2 hS
+  exact ⟨a2, a3, a4⟩
+
+end Exec64Any
+
+/-! ### non-vacuity of the component-count-generic and complex rounding theorems -/
+
+/-- seven components in binary64 meet the count hypothesis (as do two million) -/
+example : (((([1, 2, 3, 4, 5, 6, 7] : List Rat).length : Rat) + 1) *
+    ((([1, 2, 3, 4, 5, 6, 7] : List Rat).length : Rat) + 1) * (1 / 9007199254740992) ≤ 1 / 1024) := by
+  norm_num
+/-- the bit-exact kernel on nine components -/
+example : flNormCell fl64 sqrt64 ([1, 1, 1, 1, 1, 1, 1, 1, 1] : List Rat) = 3 := by decide +kernel
+example : sqLen ([1, 2, 3, 4, 5, 6, 7] : List Rat) ≠ 0 := by norm_num [sqLen]
+/-- the complex kernel divides through the rounded reciprocal: `(3+4i, 0)` set to norm 10 is
+`(6.000000000000001+8i, 0)`, not `(6+8i, 0)` — NumPy returns exactly this -/
+example : flattenC (cflSetCell fl64 sqrt64 true [((3 : Rat), (4 : Rat)), (0, 0)] 10) =
+    [6755399441055745 / 1125899906842624, 8, 0, 0] := by decide +kernel
+example : cSqLen [((3 : Rat), (4 : Rat)), (0, 0)] ≠ 0 := by norm_num [cSqLen]
+example : atolDefault < cflNormCell fl64 sqrt64 false [((3 : Rat), (4 : Rat)), (0, 0)] := by decide +kernel
+
+
+
+
+/-! ## Laws of the setter and of the orientation (exact arithmetic, any ordered field) -/
+section Laws
+variable {K : Type} [Field K] [LinearOrder K] [IsStrictOrderedRing K]
+
+/-- **setting the norm twice equals setting the last** (up to the sign of the first target):
+after a positive first target the second assignment gives what it would have given on the
+original vector; a negative first target flips the vector first; a zero first target is
+irreversible (the cell is zero from then on).  Zero cells stay zero throughout. -/
+theorem setCell_twice (sqrt : K → K) (v : List K) (t1 t2 : K) (hs : SqrtAt sqrt (sqLen v))
+    (h0 : SqrtAt sqrt 0) (ht1 : SqrtAt sqrt (t1 * t1)) :
+    setCell sqrt (setCell sqrt v t1) t2 =
+      if t1 = 0 then zeros v else setCell sqrt v (if 0 < t1 then t2 else -t2) := by
+  by_cases hz : sqLen v = 0
+  · have hv := (sqLen_eq_zero_iff v).mp hz
+    have e1 : ∀ t, setCell sqrt v t = zeros v := fun t => setCell_zero sqrt v t h0 hv
+    rw [e1 t1, setCell_zero sqrt (zeros v) t2 h0 (fun x hx => mem_zeros hx), zeros_zeros]
+    split
+    · rfl
+    · rw [e1]
+  · by_cases h1 : t1 = 0
+    · subst h1
+      rw [if_pos rfl, setCell_target_zero,
+        setCell_zero sqrt (zeros v) t2 h0 (fun x hx => mem_zeros hx), zeros_zeros]
+    · rw [if_neg h1]
+      have hl : sqLen (setCell sqrt v t1) = t1 * t1 := setCell_sqLen sqrt v t1 hs hz
+      have hne : t1 * t1 ≠ 0 := mul_self_ne_zero.mpr h1
+      have hnpos : sqrt (sqLen v) ≠ 0 := fun e => hz (hs.eq_zero_iff.mp e)
+      rw [setCell_nonzero sqrt (setCell sqrt v t1) t2 (by rw [hl]; exact ht1) (by rw [hl]; exact hne), hl,
+        ht1.mul_self, setCell_nonzero sqrt v t1 hs hz, smul_smul,
+        setCell_nonzero sqrt v _ hs hz]
+      congr 1
+      have habs : |t1| ≠ 0 := abs_ne_zero.mpr h1
+      split
+      · rename_i hpos
+        rw [abs_of_pos hpos]; field_simp
+      · rename_i hneg
+        have : t1 < 0 := lt_of_le_of_ne (not_lt.mp hneg) h1
+        rw [abs_of_neg this]; field_simp
+
+/-- … in particular for positive targets the last assignment wins -/
+theorem setCell_setCell (sqrt : K → K) (v : List K) (t1 t2 : K) (hs : SqrtAt sqrt (sqLen v))
+    (h0 : SqrtAt sqrt 0) (ht1 : SqrtAt sqrt (t1 * t1)) (hpos : 0 < t1) :
+    setCell sqrt (setCell sqrt v t1) t2 = setCell sqrt v t2 := by
+  rw [setCell_twice sqrt v t1 t2 hs h0 ht1, if_neg hpos.ne', if_pos hpos]
+
+/-- **any number of assignments with positive targets equals the last one**, by induction over
+the list of earlier targets -/
+theorem setCell_foldl_last (sqrt : K → K) (ts : List K) (v : List K) (t : K)
+    (hs : SqrtAt sqrt (sqLen v)) (h0 : SqrtAt sqrt 0)
+    (hts : ∀ s ∈ ts, 0 < s ∧ SqrtAt sqrt (s * s)) :
+    (ts ++ [t]).foldl (setCell sqrt) v = setCell sqrt v t := by
+  induction ts generalizing v with
+  | nil => rfl
+  | cons s rest ih =>
+    obtain ⟨hpos, hss⟩ := hts s List.mem_cons_self
+    simp only [List.cons_append, List.foldl_cons]
+    have hs' : SqrtAt sqrt (sqLen (setCell sqrt v s)) := by
+      by_cases hz : sqLen v = 0
+      · rw [setCell_zero sqrt v s h0 ((sqLen_eq_zero_iff v).mp hz), sqLen_zeros]; exact h0
+      · rw [setCell_sqLen sqrt v s hs hz]; exact hss
+    rw [ih (setCell sqrt v s) hs' fun x hx => hts x (List.mem_cons_of_mem _ hx)]
+    exact setCell_setCell sqrt v s t hs h0 hss hpos
+
+/-- the norm of the orientation: 1 above the threshold, 0 at or below it -/
+theorem normCell_orientCell (sqrt : K → K) (atol : K) (v : List K) (h0 : 0 ≤ atol)
+    (hs : SqrtAt sqrt (sqLen v)) (hs0 : SqrtAt sqrt 0) (hs1 : SqrtAt sqrt 1) :
+    normCell sqrt (orientCell sqrt atol v) = if normCell sqrt v ≤ atol then 0 else 1 := by
+  rcases orientCell_dichotomy sqrt atol v h0 hs with ⟨hle, hz⟩ | ⟨hgt, hu⟩
+  · rw [if_pos hle, hz]; unfold normCell; rw [sqLen_zeros]; exact hs0.zero
+  · rw [if_neg (not_le.mpr hgt)]; unfold normCell; rw [hu]
+    exact hs1.unique zero_le_one (one_mul 1)
+
+/-- **the orientation is idempotent** (threshold below 1): the orientation of the orientation is
+the orientation -/
+theorem orientCell_idem (sqrt : K → K) (atol : K) (v : List K) (h0 : 0 ≤ atol) (h1 : atol < 1)
+    (hs : SqrtAt sqrt (sqLen v)) (hs0 : SqrtAt sqrt 0) (hs1 : SqrtAt sqrt 1) :
+    orientCell sqrt atol (orientCell sqrt atol v) = orientCell sqrt atol v := by
+  have hn := normCell_orientCell sqrt atol v h0 hs hs0 hs1
+  rcases orientCell_dichotomy sqrt atol v h0 hs with ⟨hle, hz⟩ | ⟨hgt, hu⟩
+  · rw [if_pos hle] at hn
+    rw [orientCell_zero sqrt atol _ (by rw [hn, abs_zero]; exact h0), hz, zeros_zeros]
+  · rw [if_neg (not_le.mpr hgt)] at hn
+    rw [orientCell_far sqrt atol _ (by rw [hn]; exact h1), hn]
+    conv_rhs => rw [← List.map_id (orientCell sqrt atol v)]
+    apply List.map_congr_left
+    intro x _
+    simp
+
+/-- **the threshold is inclusive**: `np.isclose(‖v‖, 0)` is `|‖v‖| ≤ atol`, so a cell whose length
+is exactly `atol` has orientation zero, and every longer cell is normalised — there is no other
+case (`closeZero` is decided by this comparison and nothing else) -/
+theorem orientCell_threshold (sqrt : K → K) (atol : K) (v : List K) (h0 : 0 ≤ atol)
+    (hs : SqrtAt sqrt (sqLen v)) :
+    (closeZero atol (normCell sqrt v) = true ↔ normCell sqrt v ≤ atol) ∧
+    (normCell sqrt v = atol → orientCell sqrt atol v = zeros v) ∧
+    (atol < normCell sqrt v → sqLen (orientCell sqrt atol v) = 1) := by
+  refine ⟨?_, fun he => orientCell_zero_le sqrt atol v hs (le_of_eq he),
+    fun hgt => orientCell_unit sqrt atol v h0 hs hgt⟩
+  rw [closeZero_eq, decide_eq_true_iff]
+  unfold normCell
+  rw [abs_of_nonneg hs.1]
+
+end Laws
+
+/-- boundary cases with the library's `1e-8`: a vector of length exactly `1e-8` has orientation
+zero, a vector longer by `1e-17` is normalised -/
+example : orientCell sqrtQ atolDefault [1 / 100000000, 0] = [0, 0] := by
+  have h : sqLen ([1 / 100000000, 0] : List Rat) = (1 / 100000000) * (1 / 100000000) := by norm_num [sqLen]
+  rw [orientCell_zero_le sqrtQ atolDefault _ (by rw [h]; exact sqrtQ_sqrtAt _)
+    (by unfold normCell; rw [h, sqrtQ_mul_self]; norm_num [atolDefault])]
+  rfl
+example : sqLen (orientCell sqrtQ atolDefault [1 / 100000000 + 1 / 100000000000000000, 0]) = 1 := by
+  have h : sqLen ([1 / 100000000 + 1 / 100000000000000000, 0] : List Rat) =
+      (1 / 100000000 + 1 / 100000000000000000) * (1 / 100000000 + 1 / 100000000000000000) := by
+    norm_num [sqLen]
+  exact orientCell_unit sqrtQ atolDefault _ (by norm_num [atolDefault]) (by rw [h]; exact sqrtQ_sqrtAt _)
+    (by unfold normCell; rw [h, sqrtQ_mul_self]; norm_num [atolDefault])
+example : SqrtAt sqrtQ (1 : Rat) := by simpa using sqrtQ_sqrtAt 1
+/-- three assignments (2, 7, 1/2), then 10: the same as assigning 10 at once -/
+example : (([2, 7, 1 / 2] : List Rat) ++ [10]).foldl (setCell sqrtQ) ([3, 4] : List Rat) = setCell sqrtQ [3, 4] 10 := by
+  have h : sqLen ([3, 4] : List Rat) = 5 * 5 := by norm_num [sqLen]
+  refine setCell_foldl_last sqrtQ _ _ _ (by rw [h]; exact sqrtQ_sqrtAt 5) sqrtQ_zero ?_
+  intro s hs
+  simp only [List.mem_cons, List.not_mem_nil, or_false] at hs
+  rcases hs with rfl | rfl | rfl
+  · exact ⟨by norm_num, sqrtQ_sqrtAt _⟩
+  · exact ⟨by norm_num, sqrtQ_sqrtAt _⟩
+  · exact ⟨by norm_num, sqrtQ_sqrtAt _⟩
+
+
+/-! ## Acceptance as an equivalence; assignments composed; the orientation as a constructor call -/
+section Field3
+variable (sqrt : Rat → Rat)
+
+/-- **the norm setter accepts exactly the well-shaped specifications**: `None`, any number, any
+callable, an array-like of the mesh's shape or with last axis 1 that broadcasts to
+`(*mesh.n, 1)`, a one-component field whose region contains the receiver's (same axis names);
+everything else is refused — and nothing else is needed (no hypothesis on the receiver) -/
+theorem setNorm_accepts_iff (f : Fld) (o : Option NSpec) :
+    (∃ g, setNorm sqrt f o = .ok g) ↔ ∀ s, o = some s → s.Accepted f.mesh :=
+  setNorm_ok_iff sqrt f o
+
+/-- a refused norm field raises a `ValueError` exactly when its region does not contain the
+receiver's or it has more than one component (the two checks of the code, in that order) -/
+theorem setNorm_field_refused_iff (f h : Fld) :
+    setNorm sqrt f (some (.field h)) = .error .value ↔
+      h.mesh.region.containsReg f.mesh.region = false ∨ h.nvdim ≠ 1 := by
+  rw [← asArray1_field_value_iff]
+  simp only [setNorm]
+  cases asArray1 f.mesh (.field h) with
+  | error e => simp
+  | ok t => simp
+
+/-- **a whole history is accepted iff every statement is well-shaped for the initial mesh and
+component count** (both are invariant): no hidden refusal and no hidden acceptance, with no
+hypothesis on the field -/
+theorem run_accepts_iff (atol : Rat) (hist : List Step) (f : Fld) :
+    (∃ g, run sqrt atol f hist = .ok g) ↔ ∀ s ∈ hist, s.Accepted f.mesh f.nvdim :=
+  run_ok_iff sqrt atol hist f
+
+/-- **the constructor is accepted iff** `nvdim ≥ 1` and value, norm and validity are
+well-shaped for the mesh -/
+theorem mk_accepts_iff (atol : Rat) (m : Mesh) (nvdim : Nat) (value : VSpec) (nrm : Option NSpec)
+    (valid : ValidSpec) (unit : Option String) :
+    (∃ g, mk? sqrt atol m nvdim value nrm valid unit = .ok g) ↔
+      1 ≤ nvdim ∧ value.Accepted m nvdim ∧ (∀ s, nrm = some s → s.Accepted m) ∧ valid.Accepted m := by
+  constructor
+  · rintro ⟨g, hg⟩
+    obtain ⟨hn, a, ha, f1, h1, vd, hvd, _⟩ := mk_ok hg
+    refine ⟨hn, (valuesOf_ok_iff m nvdim value).mp ⟨a, ha⟩, (setNorm_ok_iff sqrt _ nrm).mp ⟨f1, h1⟩, ?_⟩
+    have := (validOf_ok_iff sqrt atol f1 valid).mp ⟨vd, hvd⟩
+    rwa [(setNorm_frame sqrt _ f1 nrm h1).1] at this
+  · rintro ⟨hn, hv, hs, hvd⟩
+    rw [mk_eq_run sqrt atol m nvdim hn]
+    obtain ⟨g, hg⟩ := (run_ok_iff sqrt atol [.update value, .setNorm nrm, .setValid valid]
+      (blank m nvdim unit)).mpr (by
+        intro s hs'
+        simp only [List.mem_cons, List.not_mem_nil, or_false] at hs'
+        rcases hs' with rfl | rfl | rfl
+        · exact hv
+        · cases nrm with
+          | none => trivial
+          | some s => exact hs s rfl
+        · exact hvd)
+    rw [hg]
+    exact ⟨_, rfl⟩
+
+/-- `Field(mesh, nvdim, value, norm, valid, unit)` is the full constructor with `vdims=None,
+vdim_mapping=None` -/
+theorem mk_eq_mkFull (atol : Rat) (m : Mesh) (nvdim : Nat) (value : VSpec) (nrm : Option NSpec)
+    (valid : ValidSpec) (unit : Option String) :
+    mk? sqrt atol m nvdim value nrm valid unit = mkFull? sqrt atol m nvdim value nrm valid none none unit := by
+  unfold mk? mkFull?
+  split
+  · rfl
+  · cases updateValues (Fld.mk m nvdim ⟨m.n, fun _ => []⟩ ⟨m.n, fun _ => true⟩ none [] unit) value with
+    | error e => rfl
+    | ok f0 =>
+      simp only
+      cases setNorm sqrt f0 nrm with
+      | error e => rfl
+      | ok f1 =>
+        simp only
+        cases setValid sqrt atol f1 valid with
+        | error e => rfl
+        | ok f2 => rfl
+
+/-- **the full constructor is accepted iff** the plain one is, the labels are `None`, `[]` or as
+many distinct labels as components, and the mapping is `None`, empty, a single entry on an
+unlabelled scalar field (dropped), or keyed by exactly the labels -/
+theorem mkFull_accepts_iff (atol : Rat) (m : Mesh) (nvdim : Nat) (value : VSpec) (nrm : Option NSpec)
+    (valid : ValidSpec) (vdims : Option (List String)) (vmap : Option (List (String × String)))
+    (unit : Option String) :
+    (∃ g, mkFull? sqrt atol m nvdim value nrm valid vdims vmap unit = .ok g) ↔
+      (∃ g, mk? sqrt atol m nvdim value nrm valid unit = .ok g) ∧
+      ∃ ls, vdimsSet nvdim vdims = .ok ls ∧
+        ∀ mp, vmap = some mp → (mp.length = 1 ∧ nvdim = 1 ∧ ls = none) ∨ mp = [] ∨
+          ∃ l, ls = some l ∧ sameKeys (mp.map (·.1)) l = true := by
+  constructor
+  · rintro ⟨g, hg⟩
+    obtain ⟨hn, a, ha, f1, h1, vd, hvd, ls, hls, vm, hvm, _⟩ := mkFull_ok hg
+    refine ⟨?_, ls, hls, (vmapSet_ok_iff nvdim ls m.region.dims vmap).mp ⟨vm, hvm⟩⟩
+    rw [mk_accepts_iff]
+    refine ⟨hn, (valuesOf_ok_iff m nvdim value).mp ⟨a, ha⟩, (setNorm_ok_iff sqrt _ nrm).mp ⟨f1, h1⟩, ?_⟩
+    have := (validOf_ok_iff sqrt atol f1 valid).mp ⟨vd, hvd⟩
+    rwa [(setNorm_frame sqrt _ f1 nrm h1).1] at this
+  · rintro ⟨⟨g, hg⟩, ls, hls, hmp⟩
+    obtain ⟨vm, hvm⟩ := (vmapSet_ok_iff nvdim ls m.region.dims vmap).mpr hmp
+    obtain ⟨hn, a, ha, f1, h1, vd, hvd, _⟩ := mk_ok hg
+    have h1' : setNorm sqrt (Fld.mk m nvdim a ⟨m.n, fun _ => true⟩ none [] unit) nrm = .ok f1 := h1
+    unfold mkFull?
+    rw [if_neg (by omega)]
+    simp only [updateValues, ha, h1', setValid, hvd, hls, hvm]
+    exact ⟨_, rfl⟩
+
+/-- **`Field.orientation` is a constructor call** (`Field(mesh, nvdim=self.nvdim,
+value=orientation_array, vdims=self.vdims, valid=self.valid, vdim_mapping=self.vdim_mapping)`):
+on a field whose arrays have the mesh's shape, whose labels — if any — are as many distinct
+labels as components and whose mapping is empty or keyed by the labels the result will have,
+that call is accepted and returns exactly `orientation` (labels re-defaulted if there were none,
+mapping kept, no unit) -/
+theorem orientation_is_ctor_call (atol : Rat) (f : Fld) (hn : 1 ≤ f.nvdim)
+    (hv : f.valid.shape = f.mesh.n)
+    (hd : ∀ i ∈ indicesC f.mesh.n, (f.data.get i).length = f.nvdim)
+    (hl : ∀ l, f.vdims = some l → l ≠ [] ∧ l.length = f.nvdim ∧ hasDup l = false)
+    (hm : f.vmap = [] ∨ ∃ l, orientVdims f = some l ∧ sameKeys (f.vmap.map (·.1)) l = true) :
+    orientation? sqrt atol f = .ok (orientation sqrt atol f) := by
+  have hvm : vmapSet f.nvdim (orientVdims f) f.mesh.region.dims (some f.vmap) = .ok f.vmap := by
+    simp only [vmapSet]
+    rcases hm with h | ⟨l, hl', hk⟩
+    · rw [h]; simp
+    · rw [hl']
+      have h1 : ¬(f.vmap.length = 1 ∧ f.nvdim = 1 ∧ (some l : Option (List String)) = none) := by
+        rintro ⟨_, _, h⟩; cases h
+      rw [if_neg h1]
+      by_cases h2 : 0 < f.vmap.length
+      · rw [if_pos h2]; simp only [hk, if_true]
+      · rw [if_neg h2]
+  unfold orientation? mkFull?
+  rw [if_neg (by omega), orient_update sqrt atol f hd]
+  simp only [setNorm, setValid, validOf]
+  rw [bcastArr_same f.mesh f.valid hv]
+  simp only [vdimsSet_live f hl, hvm]
+  rfl
+
+/-- … and the same getter is **refused** on a vector field whose labels were removed while its
+mapping still carries keys (`f.vdims = []` after custom labels): the constructor re-applies
+the default labels and then rejects the stale mapping — `Field.orientation` raises on such a
+field -/
+theorem orientation_refused_stale_mapping (atol : Rat) (f : Fld) (hn : 1 ≤ f.nvdim)
+    (hv : f.valid.shape = f.mesh.n)
+    (hd : ∀ i ∈ indicesC f.mesh.n, (f.data.get i).length = f.nvdim)
+    (hnone : f.vdims = none) (hne : f.vmap ≠ [])
+    (hbad : ∀ l, Fld.defaultVdims f.nvdim = some l → sameKeys (f.vmap.map (·.1)) l = false)
+    (h1 : ¬(f.vmap.length = 1 ∧ f.nvdim = 1)) :
+    ∃ e, orientation? sqrt atol f = .error e := by
+  have hpos : 0 < f.vmap.length := by
+    cases hm : f.vmap with
+    | nil => exact absurd hm hne
+    | cons x xs => simp
+  have hvm : ∃ e, vmapSet f.nvdim (Fld.defaultVdims f.nvdim) f.mesh.region.dims (some f.vmap) = .error e := by
+    simp only [vmapSet]
+    rw [if_neg (by rintro ⟨a, b, _⟩; exact h1 ⟨a, b⟩), if_pos hpos]
+    cases hdv : Fld.defaultVdims f.nvdim with
+    | none => exact ⟨_, rfl⟩
+    | some l =>
+      simp only [hbad l hdv]
+      exact ⟨_, rfl⟩
+  obtain ⟨e, he⟩ := hvm
+  refine ⟨e, ?_⟩
+  unfold orientation? mkFull?
+  rw [if_neg (by omega), orient_update sqrt atol f hd]
+  simp only [setNorm, setValid, validOf]
+  rw [bcastArr_same f.mesh f.valid hv]
+  simp only [hnone, vdimsSet, he]
+
+end Field3
+
+section Field4
+variable (sqrt : Rat → Rat)
+
+/-- **setting the norm twice equals setting the last** (field level): if the first assignment
+was accepted, the second one is accepted on the result iff it is accepted on the original
+field, validity and frame agree, and on every cell whose first target was positive the two
+arrays agree — the first assignment leaves no trace -/
+theorem setNorm_twice (f g1 g2 : Fld) (s1 s2 : NSpec) (t1 : NDA Rat)
+    (ht1 : asArray1 f.mesh s1 = .ok t1) (h1 : setNorm sqrt f (some s1) = .ok g1)
+    (h2 : setNorm sqrt g1 (some s2) = .ok g2) :
+    ∃ g2', setNorm sqrt f (some s2) = .ok g2' ∧ g2'.valid = g2.valid ∧ g2'.mesh = g2.mesh ∧
+      ∀ i, SqrtAt sqrt (sqLen (f.data.get i)) → SqrtAt sqrt 0 →
+        SqrtAt sqrt (t1.get i * t1.get i) → 0 < t1.get i → g2.data.get i = g2'.data.get i := by
+  rw [setNorm_of_target ht1] at h1
+  simp only [Except.ok.injEq] at h1
+  subst h1
+  obtain ⟨t2, ht2, rfl⟩ := setNorm_some_ok h2
+  have ht2' : asArray1 f.mesh s2 = .ok t2 := ht2
+  refine ⟨_, setNorm_of_target ht2', rfl, rfl, fun i hs h0 htt hpos => ?_⟩
+  exact setCell_setCell sqrt (f.data.get i) (t1.get i) (t2.get i) hs h0 htt hpos
+
+/-- **round trip, from the inputs alone**: a well-shaped specification is accepted, validity and
+frame are untouched, and reading the norm back gives `|t_i|` on the cells that were non-zero
+and 0 on the cells that were zero, `t` being what `_as_array(spec, nvdim=1)` evaluates to -/
+theorem setNorm_roundtrip (f : Fld) (s : NSpec) (hacc : s.Accepted f.mesh) :
+    ∃ g t, setNorm sqrt f (some s) = .ok g ∧ asArray1 f.mesh s = .ok t ∧
+      g.valid = f.valid ∧ g.mesh = f.mesh ∧ g.unit = f.unit ∧
+      ∀ i, SqrtAt sqrt (sqLen (f.data.get i)) → SqrtAt sqrt 0 → SqrtAt sqrt (t.get i * t.get i) →
+        (norm sqrt g).data.get i = [if sqLen (f.data.get i) = 0 then 0 else |t.get i|] ∧
+        Rescaled (f.data.get i) (g.data.get i) (t.get i) := by
+  obtain ⟨t, ht⟩ := (asArray1_ok_iff f.mesh s).mpr hacc
+  refine ⟨_, t, setNorm_of_target ht, ht, rfl, rfl, rfl, fun i hs h0 htt => ?_⟩
+  exact ⟨norm_setNorm sqrt f _ s t ht (setNorm_of_target ht) i hs h0 htt,
+    setNorm_rescaled sqrt f _ s t ht (setNorm_of_target ht) i hs h0⟩
+
+/-- **the norm of the orientation field** is 1 wherever the field is above the threshold and
+0 elsewhere -/
+theorem norm_orientation (atol : Rat) (h0 : 0 ≤ atol) (f : Fld) (i : List Nat)
+    (hs : SqrtAt sqrt (sqLen (f.data.get i))) (hs0 : SqrtAt sqrt 0) (hs1 : SqrtAt sqrt 1) :
+    (norm sqrt (orientation sqrt atol f)).data.get i =
+      [if normCell sqrt (f.data.get i) ≤ atol then 0 else 1] := by
+  show [normCell sqrt (orientCell sqrt atol (f.data.get i))] = _
+  rw [normCell_orientCell sqrt atol _ h0 hs hs0 hs1]
+
+/-- **the orientation is idempotent** as a field operation (threshold below 1, as the library's
+`1e-8`): array, validity, labels, mapping, unit — the whole field — are reproduced -/
+theorem orientation_idem (atol : Rat) (h0 : 0 ≤ atol) (h1 : atol < 1) (f : Fld)
+    (hs : ∀ i, SqrtAt sqrt (sqLen (f.data.get i))) (hs0 : SqrtAt sqrt 0) (hs1 : SqrtAt sqrt 1) :
+    orientation sqrt atol (orientation sqrt atol f) = orientation sqrt atol f := by
+  have hd : (fun i => orientCell sqrt atol (orientCell sqrt atol (f.data.get i))) =
+      fun i => orientCell sqrt atol (f.data.get i) := by
+    funext i; exact orientCell_idem sqrt atol _ h0 h1 (hs i) hs0 hs1
+  have hv : orientVdims (orientation sqrt atol f) = orientVdims f := by
+    show (match orientVdims f with
+      | none => Fld.defaultVdims f.nvdim
+      | some l => some l) = orientVdims f
+    unfold orientVdims
+    cases f.vdims with
+    | some l => rfl
+    | none =>
+      simp only
+      cases Fld.defaultVdims f.nvdim <;> rfl
+  unfold orientation
+  simp only [hd]
+  congr 1
+
+/-- **the orientation does not see a positive rescaling of the field**: wherever the vector
+stays above the threshold before and after multiplying the whole field by `c > 0` -/
+theorem orientation_scale_invariant (atol : Rat) (h0 : 0 ≤ atol) (c : Rat) (hc : 0 < c) (f : Fld)
+    (i : List Nat) (hs : SqrtAt sqrt (sqLen (f.data.get i)))
+    (hs' : SqrtAt sqrt (sqLen (smul c (f.data.get i))))
+    (hat : atol < normCell sqrt (f.data.get i)) (hat' : atol < normCell sqrt (smul c (f.data.get i))) :
+    (orientation sqrt atol (scaleF c f)).data.get i = (orientation sqrt atol f).data.get i :=
+  orientCell_scale_invariant sqrt atol _ c hc h0 hs hs' hat hat'
+
+end Field4
+
+/-! ### non-vacuity: the constructor with labels and mapping, the orientation as that call -/
+
+/-- labels `a, b` mapped onto the axis of a 1-d mesh is refused (two components, one axis is fine,
+but the keys must be the labels): here the keys ARE the labels, so it is accepted -/
+example : ∃ g, mkFull? sqrtQ atolDefault exMesh 2 (.vec [3, 4]) (some (.const 10)) .byNorm
+    (some ["a", "b"]) (some [("a", "x"), ("b", "x")]) none = .ok g := ⟨_, rfl⟩
+example : ∃ e, mkFull? sqrtQ atolDefault exMesh 2 (.vec [3, 4]) none .none
+    (some ["a", "b"]) (some [("a", "x"), ("c", "x")]) none = .error e := ⟨_, rfl⟩
+example : ∃ e, mkFull? sqrtQ atolDefault exMesh 2 (.vec [3, 4]) none .none
+    (some ["a", "a"]) none none = .error e := ⟨_, rfl⟩
+
+/-- a labelled field with a mapping (`exLabelled`, Lemmas/C15Acc) meets the hypotheses of
+`orientation_is_ctor_call` -/
+example : orientation? sqrtQ atolDefault exLabelled = .ok (orientation sqrtQ atolDefault exLabelled) :=
+  orientation_is_ctor_call sqrtQ atolDefault exLabelled (by decide) rfl
+    (by intro i hi
+        have e : indicesC exMesh.n = [[0], [1]] := by decide +kernel
+        have : i = [0] ∨ i = [1] := by
+          have hi' : i ∈ indicesC exMesh.n := hi
+          rw [e] at hi'; simpa using hi'
+        rcases this with rfl | rfl <;> rfl)
+    (by intro l hl; cases hl; exact ⟨by simp, rfl, by decide⟩)
+    (Or.inr ⟨["a", "b"], rfl, by decide⟩)
+
+/-- the same field after `f.vdims = []` (labels gone, mapping still keyed by them) meets the
+hypotheses of `orientation_refused_stale_mapping` -/
+example : ∃ e, orientation? sqrtQ atolDefault { exLabelled with vdims := none } = .error e :=
+  orientation_refused_stale_mapping sqrtQ atolDefault { exLabelled with vdims := none } (by decide) rfl
+    (by intro i hi
+        have e : indicesC exMesh.n = [[0], [1]] := by decide +kernel
+        have : i = [0] ∨ i = [1] := by
+          have hi' : i ∈ indicesC exMesh.n := hi
+          rw [e] at hi'; simpa using hi'
+        rcases this with rfl | rfl <;> rfl)
+    rfl (by simp [exLabelled])
+    (by intro l hl
+        have : l = ["x", "y"] := by
+          have : Fld.defaultVdims 2 = some l := hl
+          simpa [Fld.defaultVdims] using this.symm
+        subst this; decide)
+    (by rintro ⟨h, _⟩; simp [exLabelled] at h)
+
+
+
+section DictNorm
+variable (sqrt : Rat → Rat)
+
+/-- **norm given as a dictionary over the mesh's subregions** (or as anything else
+`Field._as_array` takes): the per-cell targets are exactly the one-component array C02's model
+of `_as_array` produces — for a dictionary: the value of the first listed subregion that
+contains the cell, the default elsewhere (C02's theorems `asArray_dict_first_containing`,
+`dict_cell_*`, `dict_default_*` speak about this very array) — the assignment is accepted iff
+that conversion is, raises the same error otherwise, leaves validity and frame alone and
+rescales every cell to its target -/
+theorem setNorm_spec (f : Fld) (s : C02.Spec Rat) :
+    (∀ e, C02.asArray (fun v => v == 0) s f.mesh 1 = .error e →
+      setNorm sqrt f (some (.spec s)) = .error e) ∧
+    (∀ a, C02.asArray (fun v => v == 0) s f.mesh 1 = .ok a →
+      ∃ g, setNorm sqrt f (some (.spec s)) = .ok g ∧ g.valid = f.valid ∧ g.mesh = f.mesh ∧
+        g.unit = f.unit ∧
+        ∀ i, SqrtAt sqrt (sqLen (f.data.get i)) → SqrtAt sqrt 0 →
+          Rescaled (f.data.get i) (g.data.get i) (a.get (i ++ [0]))) := by
+  constructor
+  · intro e he
+    simp only [setNorm, asArray1, he]
+  · intro a ha
+    have ht : asArray1 f.mesh (.spec s) = .ok ⟨f.mesh.n, fun i => a.get (i ++ [0])⟩ := by
+      simp only [asArray1, ha]
+    exact ⟨_, setNorm_of_target ht, rfl, rfl, rfl, fun i hs h0 =>
+      setNorm_rescaled sqrt f _ (.spec s) _ ht (setNorm_of_target ht) i hs h0⟩
+
+/-- **the general path agrees with the special ones**: a number, an array of the mesh's shape,
+and — on a mesh without subregions — a dictionary that only has a constant `"default"`, handed
+to the setter through `_as_array`'s general model, give the targets of `const` / `arr` / `const` -/
+theorem asArray1_spec_agrees (m : Mesh) (c : Rat) (a : NDA Rat) (items : List (String × C02.Leaf Rat)) :
+    asArray1 m (.spec (.leaf (.scalar c))) = asArray1 m (.const c) ∧
+    (a.shape = m.n → asArray1 m (.spec (.leaf (.arr a))) = asArray1 m (.arr a)) ∧
+    (m.subs = [] →
+      asArray1 m (.spec (.dict items (some (.val ⟨[], fun _ => c⟩)))) = asArray1 m (.const c)) := by
+  refine ⟨?_, fun hs => ?_, fun hsub => ?_⟩
+  · simp only [asArray1, C02.asArray, C02.asLeaf]
+    rw [if_neg (by omega)]
+    rfl
+  · simp only [asArray1, C02.asArray, C02.asLeaf, bcastArr, hs, and_self, if_true]
+    simp only [Except.ok.injEq, NDA.mk.injEq, true_and]
+    funext i
+    simp
+  · have hb : C02.bcastOk (m.n ++ [1]) ([] : List Nat) = true := by
+      simp [C02.bcastOk, allLt]
+    simp only [asArray1, C02.asArray, C02.fillOf, C02.bcast, hb, if_true, hsub, List.reverse_nil,
+      C02.dictLoop]
+    have hany : C02.anyNone (NDA.map some
+        (⟨m.n ++ [1], fun j => (⟨[], fun _ => c⟩ : NDA Rat).get (C02.bcastIdx (m.n ++ [1]) [] j)⟩ : NDA Rat)) = false := by
+      unfold C02.anyNone
+      rw [List.any_eq_false]
+      intro j _
+      simp [NDA.map]
+    simp only [hany]
+    rfl
+
+end DictNorm
+
+/-- a dictionary norm on a mesh with one subregion is accepted by the executable model: the
+cell in the subregion gets 10, the other one the default 5 -/
+example : (match setNorm sqrtQ
+    { mesh := { exMesh with subs := [("left", { exMesh.region with pmax := [1] })] }, nvdim := 2,
+      data := ⟨[2], fun _ => [3, 4]⟩, valid := ⟨[2], fun _ => true⟩, vdims := none, vmap := [], unit := none }
+    (some (.spec (.dict [("left", .scalar 10)] (some (.val ⟨[], fun _ => 5⟩))))) with
+    | .ok g => decide (g.data.get [0] = [6, 8]) && decide (g.data.get [1] = [3, 4])
+    | .error _ => false) = true := by decide +kernel
+
+
+
+section FieldNorm
+variable (sqrt : Rat → Rat)
+
+/-- **norm given as a field on another mesh, from the inputs alone**: a one-component field whose
+region contains the receiver's (same axis names) is accepted, and every cell `i` is rescaled
+to the value of the norm field at the cell containing the centre of cell `i` (a centre on a face
+goes to the cell above) — no hypothesis about the success of any intermediate step -/
+theorem setNorm_field_accepted (f h : Fld) (hm : f.mesh.Inv) (hh : h.mesh.Inv)
+    (hc : h.mesh.region.containsReg f.mesh.region = true) (hnv : h.nvdim = 1)
+    (hd : h.mesh.region.dims = f.mesh.region.dims) :
+    ∃ g, setNorm sqrt f (some (.field h)) = .ok g ∧ g.valid = f.valid ∧
+      ∀ i : List Nat, (∀ a, a < f.mesh.ndim → i.getD a 0 < f.mesh.nAt a) →
+        SqrtAt sqrt (sqLen (f.data.get i)) → SqrtAt sqrt 0 →
+        Rescaled (f.data.get i) (g.data.get i)
+          ((h.data.get (tab f.mesh.ndim fun a => h.mesh.indexAx a ((f.mesh.centre i).getD a 0))).getD 0 0) := by
+  obtain ⟨g, hg⟩ := (setNorm_accepts_iff sqrt f (some (.field h))).mpr
+    (fun s hs => by cases hs; exact ⟨hc, hnv, hd⟩)
+  exact ⟨g, hg, (setNorm_frame sqrt f g _ hg).2.2.1, fun i hi hs h0 =>
+    setNorm_field sqrt f g h hm hh hg i hi hs h0⟩
+
+end FieldNorm
+
+/-- the coarser norm field of the earlier example meets the three input conditions -/
+example : (blank { exMesh with n := [1] } 1 none).mesh.region.containsReg exMesh.region = true ∧
+    (blank { exMesh with n := [1] } 1 none).nvdim = 1 ∧
+    (blank { exMesh with n := [1] } 1 none).mesh.region.dims = exMesh.region.dims :=
+  ⟨by decide +kernel, rfl, rfl⟩
+
+
+
+section AnyOrder
+variable {K : Type} [Field K] [LinearOrder K] [IsStrictOrderedRing K]
+
+/-- **the bounds do not depend on the order in which the squares are added**: for ANY bracketing
+`tr` of the sum (left to right as NumPy does up to seven components, pairwise as it does from
+eight on, or any other), with `v` the components, `n` their number, a rounded root and
+`(n+1)²·u ≤ 2^-10`: the computed norm `ν = fl(sq(Σ))` is non-negative, zero exactly on the zero
+cell, `ν²` within `(n+6)·u` of `Σ v_c²`; the setter's arithmetic `fl(fl(x/ν)·t)` yields squared
+length within `(n+10)·u` of `t²`, cross terms relatively below `17/4·u/(1−17/8·u)`, positive
+dot product for `t > 0`; the orientation's arithmetic `fl(x/ν)` yields squared length within
+`(n+8)·u` of 1 -/
+theorem any_order_exec (fl sq : K → K) (u : K) (h : FlOk fl u) (hq : SqrtOk sq u) (tr : SqTree K) (t : K)
+    (hn : ((tr.leaves.length : K) + 1) * ((tr.leaves.length : K) + 1) * u ≤ 1 / 1024) :
+    0 ≤ fl (sq (tr.flSum fl)) ∧
+    |fl (sq (tr.flSum fl)) * fl (sq (tr.flSum fl)) - sqLen tr.leaves| ≤
+      ((tr.leaves.length : K) + 6) * u * sqLen tr.leaves ∧
+    (fl (sq (tr.flSum fl)) = 0 ↔ ∀ x ∈ tr.leaves, x = 0) ∧
+    (sqLen tr.leaves ≠ 0 →
+      |sqLen (tr.leaves.map fun x => fl (fl (x / fl (sq (tr.flSum fl))) * t)) - t * t| ≤
+        ((tr.leaves.length : K) + 10) * u * (t * t) ∧
+      (∀ a b : Nat, a < tr.leaves.length →
+        |(tr.leaves.map fun x => fl (fl (x / fl (sq (tr.flSum fl))) * t)).getD a 0 * tr.leaves.getD b 0 -
+            (tr.leaves.map fun x => fl (fl (x / fl (sq (tr.flSum fl))) * t)).getD b 0 * tr.leaves.getD a 0|
+          * (1 - 17 / 8 * u) ≤
+          17 / 4 * u * |(tr.leaves.map fun x => fl (fl (x / fl (sq (tr.flSum fl))) * t)).getD a 0 * tr.leaves.getD b 0|) ∧
+      (0 < t → 0 < dot (tr.leaves.map fun x => fl (fl (x / fl (sq (tr.flSum fl))) * t)) tr.leaves) ∧
+      |sqLen (tr.leaves.map fun x => fl (x / fl (sq (tr.flSum fl)))) - 1| ≤ ((tr.leaves.length : K) + 8) * u) := by
+  have s := small_len h.1 tr.leaves.length hn
+  have herr := tr.flSum_err_small h s
+  have hu0 := s.u0
+  have hm0 := s.m0
+  have hg0 : 0 ≤ ((tr.leaves.length : K) + 1) * u + u / 1024 := by linarith
+  have hg : ((tr.leaves.length : K) + 1) * u + u / 1024 ≤ 1 / 512 := by
+    have := s.m64; have := s.u64; linarith
+  have hS := sqLen_nonneg tr.leaves
+  obtain ⟨h1, h2, h3⟩ := norm_exec_gen h hq s.u64 hg0 hg hS herr
+  have h2' : |fl (sq (tr.flSum fl)) * fl (sq (tr.flSum fl)) - sqLen tr.leaves| ≤
+      (((tr.leaves.length : K) + 1) * u + 65 / 16 * u) * sqLen tr.leaves :=
+    le_trans h2 (mul_le_mul_of_nonneg_right (by linarith) hS)
+  refine ⟨h1, le_trans h2' (mul_le_mul_of_nonneg_right (by nlinarith) hS),
+    h3.trans (sqLen_eq_zero_iff _), fun hnz => ?_⟩
+  have hnpos : 0 < fl (sq (tr.flSum fl)) := lt_of_le_of_ne h1 (fun e => hnz (h3.mp e.symm))
+  have hSpos : 0 < sqLen tr.leaves := lt_of_le_of_ne hS (Ne.symm hnz)
+  obtain ⟨a1, a2, a3⟩ := setMap_exec h s tr.leaves t hnpos hSpos h2'
+  have a4 := orientMap_exec h s tr.leaves hnpos hSpos h2'
+  refine ⟨le_trans a1 (mul_le_mul_of_nonneg_right (by nlinarith) (mul_self_nonneg t)), a2, a3,
+    le_trans a4 (by nlinarith)⟩
+
+end AnyOrder
+
+/-- … in particular for binary64 (`fl64`, `sqrt64`) and every bracketing of fewer than two million
+rational squares: the computed norm's square is within `(n+6)·2^-53` of the sum of squares,
+whatever the summation order -/
+theorem exec64_any_order (tr : SqTree Rat) (hlen : tr.leaves.length < 2000000) :
+    0 ≤ fl64 (sqrt64 (tr.flSum fl64)) ∧
+    |fl64 (sqrt64 (tr.flSum fl64)) * fl64 (sqrt64 (tr.flSum fl64)) - sqLen tr.leaves| ≤
+      ((tr.leaves.length : Rat) + 6) * (1 / 9007199254740992) * sqLen tr.leaves ∧
+    (fl64 (sqrt64 (tr.flSum fl64)) = 0 ↔ ∀ x ∈ tr.leaves, x = 0) := by
+  have hn := count_ok tr.leaves.length 1 (by omega) hlen
+  simp only [Nat.cast_one] at hn
+  obtain ⟨h1, h2, h3, _⟩ := any_order_exec fl64 sqrt64 _ fl64_flOk sqrt64_sqrtOk tr 1 hn
+  exact ⟨h1, h2, h3⟩
+
+/-- nine squares added pairwise (a balanced bracketing) in binary64 -/
+example : ((SqTree.node (.node (.node (.leaf 1) (.leaf 2)) (.node (.leaf 3) (.leaf 4)))
+      (.node (.node (.leaf 5) (.leaf 6)) (.node (.leaf 7) (.node (.leaf 8) (.leaf (9 : Rat)))))).leaves.length : Rat) = 9 := by
+  norm_num [SqTree.leaves]
+
 
 end DFV.C15
